@@ -8,7 +8,7 @@
 From Coq Require Import List ZArith Bool Permutation.
 From IB Require Import Engine.Val Engine.Ops Engine.AMap Engine.Nodes Engine.Exec Engine.Planner
      Engine.Lang Engine.Denote Engine.Static Engine.Classify Combiners.Lawful Proofs.EngineEquiv
-     Proofs.EngineClassify.
+     Proofs.EngineClassify Proofs.EngineDenote.
 Import ListNotations.
 
 (* both modes succeed and return the same rows: the identical sequence for class E (in particular
@@ -72,6 +72,16 @@ Theorem c01_program_par_equiv_seq : forall s steps t c parts,
     reorder_noop (fuse (cs_chain (compile s steps))) ->
     exists rp rs, run_par s steps parts = Ok rp /\ run_seq s steps = Ok rs /\ rel c rp rs.
 Proof. exact program_par_equiv_seq. Qed.
+
+(* ... and both results are the REFERENCE result: the independent list interpretation `denote` of
+   the program as the user wrote it (Engine/Denote.v), up to the plan's order class. This ties the
+   engines, the planner and the reference semantics together for every classified program. *)
+Theorem c01_program_matches_denote : forall s steps t c parts,
+    classify s steps = Some (t, c) ->
+    reorder_noop (fuse (cs_chain (compile s steps))) ->
+    exists rs rp, run_seq s steps = Ok rs /\ run_par s steps parts = Ok rp /\
+                  rel c rs (denote s steps) /\ rel c rp (denote s steps).
+Proof. exact program_matches_denote. Qed.
 
 Example c01_example_classified :
   classify (SrcVec TU [VInt 3; VInt 1; VInt 2])
